@@ -145,6 +145,32 @@ def check(P: Project, R: Report) -> None:
     R.ob("R2", "constraint keywords the fallback enforces were derived from its source", True, base_rel, f"fallback reads Field.kwargs: {reads_constraints}; keywords: {sorted(enforced)}")
     R.extra["validating_hooks"] = n_hooks
 
+    # ------------------------------------------------------------------ R7: unions of primitives
+    R.rule("R7", "unions of primitive types resolve alike: JSON integers are numbers, so a union with float but without int must not list str before float while the fallback's str case stringifies numbers (Pydantic picks the float member, the fallback would yield a string)")
+    str_coerces = False
+    for n in walk_local(dv):
+        if isinstance(n, ast.If) and ast.unparse(n.test) == "expected is str":
+            for x in walk_local(n):
+                if isinstance(x, ast.Return) and x.value is not None and ast.unparse(x.value) == "str(value)":
+                    str_coerces = True
+    R.extra["fallback_str_case_stringifies_numbers"] = str_coerces
+    PRIM = {"str", "int", "float", "bool"}
+    n_pu = 0
+    for q, m in sorted(traffic.items()):
+        for fi in m.own_fields.values():
+            for sub in ast.walk(fi.annotation):
+                if isinstance(sub, ast.Subscript) and ast.unparse(sub.value).split(".")[-1] in ("Union", "Optional"):
+                    mem = [ast.unparse(e) for e in union_members(sub)]
+                    prim = [x for x in mem if x in PRIM]
+                    if len(prim) < 2:
+                        continue
+                    n_pu += 1
+                    bad = "float" in prim and "int" not in prim and "str" in prim and prim.index("str") < prim.index("float") and str_coerces
+                    R.ob("R7", f"{m.name}.{fi.name}: Union[{', '.join(prim)}] resolves JSON integers alike", not bad, f"{m.ci.module.rel}:{fi.lineno}",
+                         "a JSON integer (a valid number) is no exact member: Pydantic's smart union yields the float member, the fallback tries the members in order and its str case turns 42 into \"42\"",
+                         sample=f"R7 {m.name}.{fi.name}: Union[{', '.join(prim)}]")
+    R.ob("R7", "unions of primitives were examined", True, "", f"{n_pu} such unions in protocol model fields")
+
     # ------------------------------------------------------------------ R6: inherited fields
     vt = fb_methods.get("_validate_types")
     R.need(vt is not None, "anchor: fallback _validate_types not found")
